@@ -12,6 +12,7 @@ EXPLANATION = ("C03: the encoder's structure is compared with the Source Map v3 
 NOT_DECIDED = "that an independent v3 reader decodes exactly the map's tokens for all maps (value-level)."
 
 RULES = {
+    "C03.RL": lambda ctx: __import__("rules.common", fromlist=["x"]).loop_exit_rule(ctx, "C03.RL", {'encoder::serialize_mappings': 1, 'encoder::encode_rmi': 0}),
     "C03.R1a": lambda ctx: encrules.field_order(ctx, "C03.R1a"),
     "C03.R1b": lambda ctx: encrules.resets(ctx, "C03.R1b"),
     "C03.R1c": lambda ctx: encrules.separators(ctx, "C03.R1c"),
